@@ -73,7 +73,7 @@ int main()
         return n + (int)rng.range(1, 2);
       };
       auto pickVal = [&]() -> double { return rng.coin(0.12) ? TEST : (double)rng.range(0, 3); };
-      int kind = (int)rng.range(0, 19);
+      int kind = (int)rng.range(0, 22);
       if (ncol == 0 && rng.coin(0.7)) kind = 0;
       if (ncol > 7 && kind == 0) kind = 1;
       switch (kind)
@@ -120,6 +120,16 @@ int main()
           op << "addSamples " << nadd << " " << val(v); db->addSamples(nadd, v); break; }
         case 18: { int i = rng.coin(0.1) ? (int)rng.range(-1, nech + 1) : (int)rng.range(0, std::max(0, nech - 1));
           op << "delSample " << i; db->deleteSample(i); break; }
+        case 19: case 20: {   // whole-row write: one value per column in column order (wrong sizes are refused)
+          int i = rng.coin(0.1) ? (int)rng.range(-1, nech + 1) : (int)rng.range(0, std::max(0, nech - 1));
+          int m = rng.coin(0.85) ? ncol : (int)rng.range(0, ncol + 1);
+          VectorDouble vs; std::ostringstream os;
+          for (int k = 0; k < m; k++) { double v = rng.coin(0.1) ? TEST : (double)rng.range(0, 9); vs.push_back(v); os << (k ? "," : "") << val(v); }
+          op << "setRow " << i << " " << (m ? os.str() : std::string("-")); db->setArrayBySample(i, vs); break; }
+        case 21: { int i = rng.coin(0.1) ? (int)rng.range(-1, nech + 1) : (int)rng.range(0, std::max(0, nech - 1));
+          std::vector<double> vs; db->getArrayBySample(vs, i); std::ostringstream os;
+          for (size_t k = 0; k < vs.size(); k++) os << (k ? "," : "") << val(vs[k]);
+          op << "getRow " << i << " " << (vs.empty() ? std::string("-") : os.str()); break; }
         default: { int i = rng.coin(0.1) ? (int)rng.range(-1, nech + 1) : (int)rng.range(0, std::max(0, nech - 1)); int u = pickUid(); double v = pickVal();
           op << "setArray " << i << " " << u << " " << val(v); db->setArray(i, u, v); break; }
       }
